@@ -562,6 +562,7 @@ func runC19(c *Ctx) {
 			c.Sample(map[string]interface{}{"values": model.FmtAll(vals), "reader_cases": "every split point, 8 chunk patterns x EOF-with-data, read failure at every byte offset (text and binary renderings)", "writer_cases": "write failure at every write call x {persistent, once} x {rejected, partially accepted} x 4 writer configurations"})
 		}
 	})
+	runC19Directed(c)
 	c.Exhaustive("per document up to 3000 bytes: every single split point; read failure at every byte offset 0..len (documents beyond 3000 bytes: about 150 evenly spread positions plus 4095, 4096, 4097 and 8192); write failure at every write call index (thinned to every third index in the middle of runs longer than 60 calls) in 4 fault models")
 	_ = refsym.System
 }
